@@ -37,7 +37,7 @@ theorem Bay.trackThread_chans {b b' : Bay} {mode sel inp out : Nat}
     (h : b.trackThread mode sel inp = .ok (b', out)) :
     (∀ c, c < b.chans.length → b'.chans[c]? = b.chans[c]?) ∧
     b'.chans[out]? = some { dirtyWrite := true, allowDup := true } ∧
-    b'.selected = b.selected ++ [some 0] := by
+    b'.selected = b.selected ++ [some 0] ∧ b'.dirty = b.dirty := by
   obtain ⟨rfl, b1, mi, h1, h2⟩ := Bay.trackThread_ok hmode h
   obtain ⟨oc, hoc, _, _, _, _, rfl⟩ := Bay.muxInit_ok h1
   obtain ⟨m, _, _, _, _, rfl⟩ := Bay.muxSetInput_ok h2
@@ -46,18 +46,19 @@ theorem Bay.trackThread_chans {b b' : Bay} {mode sel inp out : Nat}
     rw [List.getElem?_append_right (Nat.le_refl _)] at hoc
     simpa using hoc.symm
   subst hoc'
-  refine ⟨?_, ?_, ?_⟩
+  refine ⟨?_, ?_, ?_, ?_⟩
   · intro c hc
     simp only [Bay.enableCb_chans, Bay.register]
     rw [List.getElem?_set_ne (Nat.ne_of_gt hc), List.getElem?_append_left hc]
   · simp [Bay.register]
   · simp [Bay.register]
+  · simp [Bay.register]
 
 theorem Bay.setInputs_chans : ∀ (cs : List Nat) (b b' : Bay) (mi i : Nat),
-    b.setInputs mi i cs = .ok b' → b'.chans = b.chans ∧ b'.selected = b.selected := by
+    b.setInputs mi i cs = .ok b' → b'.chans = b.chans ∧ b'.selected = b.selected ∧ b'.dirty = b.dirty := by
   intro cs
   induction cs with
-  | nil => intro b b' mi i h; cases h; exact ⟨rfl, rfl⟩
+  | nil => intro b b' mi i h; cases h; exact ⟨rfl, rfl, rfl⟩
   | cons c cs ih =>
     intro b b' mi i h
     rw [Bay.setInputs] at h
@@ -72,25 +73,26 @@ theorem Bay.trackCpu_chans {b b' : Bay} {sel out : Nat} {raws : List Nat} {dflt 
     (h : b.trackCpu sel raws dflt = .ok (b', out)) :
     (∀ c, c < b.chans.length → b'.chans[c]? = b.chans[c]?) ∧
     b'.chans[out]? = some { dirtyWrite := true, allowDup := true } ∧
-    b'.selected = b.selected ++ [some 0] := by
+    b'.selected = b.selected ++ [some 0] ∧ b'.dirty = b.dirty := by
   obtain ⟨rfl, b1, b2, mi, h1, h2, h3⟩ := Bay.trackCpu_ok h
   obtain ⟨oc, hoc, _, _, _, _, rfl⟩ := Bay.muxInit_ok h1
-  obtain ⟨hc2, hs2⟩ := Bay.setInputs_chans _ _ _ _ _ h2
-  have hc3 : b'.chans = b2.chans ∧ b'.selected = b2.selected := by
+  obtain ⟨hc2, hs2, hd2⟩ := Bay.setInputs_chans _ _ _ _ _ h2
+  have hc3 : b'.chans = b2.chans ∧ b'.selected = b2.selected ∧ b'.dirty = b2.dirty := by
     unfold Bay.muxSetDefault at h3
     split at h3
     · cases h3
-    · cases h3; exact ⟨rfl, rfl⟩
+    · cases h3; exact ⟨rfl, rfl, rfl⟩
   have hoc' : oc = {} := by
     simp only [Bay.register] at hoc
     rw [List.getElem?_append_right (Nat.le_refl _)] at hoc
     simpa using hoc.symm
   subst hoc'
-  rw [hc3.1, hc2, hc3.2, hs2]
-  refine ⟨?_, ?_, ?_⟩
+  rw [hc3.1, hc2, hc3.2.1, hs2, hc3.2.2, hd2]
+  refine ⟨?_, ?_, ?_, ?_⟩
   · intro c hc
     simp only [Bay.enableCb_chans, Bay.register]
     rw [List.getElem?_set_ne (Nat.ne_of_gt hc), List.getElem?_append_left hc]
+  · simp [Bay.register]
   · simp [Bay.register]
   · simp [Bay.register]
 
@@ -130,16 +132,18 @@ structure Shape.Built (σ : Shape) (p : Nat) (b : Bay) : Prop where
   selZero : ∀ (mi j : Nat), b.selOf mi = some j → j = 0
   outOk : ∀ (mi : Nat) (m : Mux), b.muxes[mi]? = some m →
     (b.chan m.out).isStack = false ∧ (b.chan m.out).dirtyWrite = true
+  dirty : b.dirty = []
 
 theorem Shape.built_zero (σ : Shape) : σ.Built 0 σ.bay0 := by
   have hmx : σ.bay0.muxes = [] := by simp [Shape.bay0, Bay.registerAll_eq]
-  refine ⟨σ.bay0_topo, ?_, fun _ _ => rfl, ?_, ?_, ?_⟩
+  refine ⟨σ.bay0_topo, ?_, fun _ _ => rfl, ?_, ?_, ?_, ?_⟩
   · rw [σ.bay0_chans]; simp [Shape.L]
   · rw [hmx]; simp [Shape.muxList]
   · intro mi j h
     have : σ.bay0.selected = [] := by simp [Shape.bay0, Bay.registerAll_eq]
     simp [Bay.selOf, this] at h
   · intro mi m h; rw [hmx] at h; simp at h
+  · simp [Shape.bay0, Bay.registerAll_eq]
 
 theorem Bay.chan_congr {b b' : Bay} {c : Nat} (h : b'.chans[c]? = b.chans[c]?) : b'.chan c = b.chan c := by
   simp [Bay.chan, List.getD_eq_getElem?_getD, h]
@@ -170,7 +174,7 @@ theorem Shape.Built.step {σ : Shape} {p : Nat} {b b' : Bay} {job : Job} {o : Na
     · -- mode ANY: only the track's own channel is registered
       have hmo : σ.muxOf (.th g k i) (σ.L + p) = none := by simp only [Shape.muxOf, hk, ha, if_true]
       rw [hmo] at hml
-      refine ⟨hb.topo.register, ?_, ?_, ?_, hb.selZero, ?_⟩
+      refine ⟨hb.topo.register, ?_, ?_, ?_, hb.selZero, ?_, hb.dirty⟩
       · simp [Bay.register, hb.len]; omega
       · intro c hc
         rw [← hb.src c hc]
@@ -184,7 +188,7 @@ theorem Shape.Built.step {σ : Shape} {p : Nat} {b b' : Bay} {job : Job} {o : Na
         rw [this]; exact hb.outOk mi mx hmx
     · obtain ⟨t', hout, hmx'⟩ := hb.topo.trackThread hmode (σ.idx_lt hst) (σ.idx_lt hraw)
         (fun e => by have := σ.idx_inj hraw hst e; cases this) h
-      obtain ⟨hch, hco, hsel⟩ := Bay.trackThread_chans hmode h
+      obtain ⟨hch, hco, hsel, hdt⟩ := Bay.trackThread_chans hmode h
       have hmo : σ.muxOf (.th g k i) (σ.L + p) = some
           { sel := σ.idx (.st g), out := σ.L + p,
             kind := if m.thTrack.getD i 0 = trackRun then .thRunning else .thActive,
@@ -197,7 +201,7 @@ theorem Shape.Built.step {σ : Shape} {p : Nat} {b b' : Bay} {job : Job} {o : Na
         obtain ⟨m0, _, _, _, _, rfl⟩ := Bay.muxSetInput_ok h2'
         show b1.chans.length = _
         rw [hl1]; simp [Bay.register, hb.len]; omega
-      refine ⟨t', hlen', ?_, ?_, ?_, ?_⟩
+      refine ⟨t', hlen', ?_, ?_, ?_, ?_, hdt.trans hb.dirty⟩
       · intro c hc; rw [← hb.src c hc]; exact hch c (by rw [hb.len]; omega)
       · rw [hmx', hml, hb.muxes, hop]
       · intro mi j hsj
@@ -221,7 +225,7 @@ theorem Shape.Built.step {σ : Shape} {p : Nat} {b b' : Bay} {job : Job} {o : Na
         have hraw : Src.raw g k i ∈ σ.addrs := (σ.mem_raw g k i).mpr ⟨List.mem_range.mp hg, m, hk, hi⟩
         exact ⟨σ.idx_lt hraw, fun e => by have := σ.idx_inj hraw hrun e; cases this⟩
       obtain ⟨wf', hlay, hno, hlen, hout, hnull, hnullo, hmx'⟩ := hb.topo.trackCpu (σ.idx_lt hrun) hraws h
-      obtain ⟨hch, hco, hsel⟩ := Bay.trackCpu_chans h
+      obtain ⟨hch, hco, hsel, hdt⟩ := Bay.trackCpu_chans h
       have hmo : σ.muxOf (.cpu c k i) (σ.L + p) = some
           { sel := σ.idx (.run c), out := σ.L + p, kind := .byIndex,
             inputs := (σ.rawsOf k i).map some, dflt := m.cpuDflt i } := by simp [Shape.muxOf, hk]
@@ -237,7 +241,7 @@ theorem Shape.Built.step {σ : Shape} {p : Nat} {b b' : Bay} {job : Job} {o : Na
           · cases h3
           · cases h3; rfl
         rw [hc3, hc2, hl1]; simp [Bay.register, hb.len]; omega
-      refine ⟨⟨wf', hlay, hno, ?_, hlen⟩, hlen', ?_, ?_, ?_, ?_⟩
+      refine ⟨⟨wf', hlay, hno, ?_, hlen⟩, hlen', ?_, ?_, ?_, ?_, hdt.trans hb.dirty⟩
       · intro x
         by_cases e : x = o
         · rw [e]; exact hnullo
